@@ -113,7 +113,14 @@ func (r *runner) call(c *Call, inHole bool) []reflect.Value {
 	}
 	r.stack = append(r.stack, frame{call: c, inHole: inHole, curType: typeName(eval.Current())})
 	args := r.buildArgs(fi, c, inHole)
-	out := fi.V.Call(args)
+	var out []reflect.Value
+	if n := fi.T.NumIn(); fi.T.IsVariadic() && len(args) == n-1 {
+		// a call without variadic arguments passes a nil slice in Go (reflect's Call would
+		// pass an empty non-nil one, which `if args == nil` in the DSL tells apart)
+		out = fi.V.CallSlice(append(args, reflect.Zero(fi.T.In(n-1))))
+	} else {
+		out = fi.V.Call(args)
+	}
 	r.stack = r.stack[:len(r.stack)-1]
 	return out
 }
